@@ -64,8 +64,11 @@ Min(kind) == MinTab[kind]
 Sibling(kind) == IF kind = "parameter" THEN Set(Min(kind), "name", S("s")) ELSE Min(kind)
 
 (*---------------------- conforming variants per kind ----------------------*)
-G(var, obj) == [rule |-> "none", var |-> var, obj |-> obj]
-Bd(rule, var, obj) == [rule |-> rule, var |-> var, obj |-> obj]
+(* comps: components the leaf refers to, as <<section, name, object>>, added to the document's components *)
+GC(var, obj, comps) == [rule |-> "none", var |-> var, obj |-> obj, comps |-> comps]
+BdC(rule, var, obj, comps) == [rule |-> rule, var |-> var, obj |-> obj, comps |-> comps]
+G(var, obj) == GC(var, obj, <<>>)
+Bd(rule, var, obj) == BdC(rule, var, obj, <<>>)
 
 PathParam(name) == OO(<< <<"name", S(name)>>, <<"in", S("path")>>, <<"required", B(TRUE)>>, <<"schema", TString>> >>)
 Op == Min("operation")
@@ -74,6 +77,21 @@ OpId(id) == With(OO(<< <<"operationId", S(id)>> >>), << <<"responses", OO(<< <<"
 QParam(style, explode) == OO(<< <<"name", S("q")>>, <<"in", S("query")>>, <<"style", S(style)>>,
                                <<"explode", B(explode)>>, <<"schema", TString>> >>)
 InParam(in, style) == OO(<< <<"name", S("q")>>, <<"in", S(in)>>, <<"style", S(style)>>, <<"schema", TString>> >>)
+(* parameters given by reference: components.parameters.R0 / R1 *)
+PRef(cs) == OO(<< <<"$ref", S(RefStr("parameters", Join(cs)))>> >>)
+PComp(cs, obj) == <<"parameters", Join(cs), obj>>
+ParamQ == Min("parameter")                        \* (query, q)
+ParamS == Set(Min("parameter"), "name", S("s"))   \* (query, s)
+(* parameter lists in which the same (in, name) occurs twice, at least once through a reference *)
+DupLists == {[var |-> "inline_ref",     ps |-> <<ParamQ, PRef(cNameR)>>,        comps |-> <<PComp(cNameR, ParamQ)>>],
+             [var |-> "ref_inline",     ps |-> <<PRef(cNameR), ParamS, ParamQ>>, comps |-> <<PComp(cNameR, ParamQ)>>],
+             [var |-> "two_refs",       ps |-> <<PRef(cNameR), PRef(cNameR1)>>, comps |-> <<PComp(cNameR, ParamQ), PComp(cNameR1, ParamQ)>>],
+             [var |-> "same_ref_twice", ps |-> <<PRef(cNameR), PRef(cNameR)>>,  comps |-> <<PComp(cNameR, ParamQ)>>]}
+(* conforming counterparts: different names through references *)
+DistinctLists == {[var |-> "refs_distinct",  ps |-> <<PRef(cNameR), PRef(cNameR1)>>, comps |-> <<PComp(cNameR, ParamQ), PComp(cNameR1, ParamS)>>],
+                  [var |-> "inline_and_ref", ps |-> <<ParamS, PRef(cNameR)>>,       comps |-> <<PComp(cNameR, ParamQ)>>],
+                  [var |-> "ref_other_in",   ps |-> <<PRef(cNameR), OO(<< <<"name", S("q")>>, <<"in", S("header")>>, <<"schema", TString>> >>)>>,
+                                             comps |-> <<PComp(cNameR, ParamQ)>>]}
 MtMin == Min("mediaType")
 Content1 == OO(<< <<"application/json", MtMin>> >>)
 Content2 == OO(<< <<"application/json", MtMin>>, <<"text/plain", MtMin>> >>)
@@ -106,10 +124,12 @@ Goods0(kind) ==
            G("var_two_paths", OO(<< <<Join(cPathId), OO(<< <<"get", OpWith(<<PathParam("id")>>)>> >>)>>,
                                     <<Join(cPathQId), OO(<< <<"get", OpWith(<<PathParam("id")>>)>> >>)>> >>)),
            G("ext_member", OO(<< <<sExt, N(1)>>, <<Join(cPathP), EmptyO>> >>))}
-     [] kind = "pathItem" -> {G("texts", OO(<< <<"summary", S("s")>>, <<sDescr, S("d")>> >>)),
+     [] kind = "pathItem" -> {GC(x.var, OO(<< <<"parameters", A(x.ps)>> >>), x.comps) : x \in DistinctLists} \cup
+                             {G("texts", OO(<< <<"summary", S("s")>>, <<sDescr, S("d")>> >>)),
                               G("same_name_other_in", OO(<< <<"parameters", A(<<Min("parameter"),
                                      OO(<< <<"name", S("q")>>, <<"in", S("header")>>, <<"schema", TString>> >>)>>)>> >>))}
-     [] kind = "operation" -> {G("full", With(OO(<< <<"operationId", S("o")>>, <<"tags", A(<<S("g")>>)>>,
+     [] kind = "operation" -> {GC(x.var, OpWith(x.ps), x.comps) : x \in DistinctLists} \cup
+                              {G("full", With(OO(<< <<"operationId", S("o")>>, <<"tags", A(<<S("g")>>)>>,
                                      <<"summary", S("s")>>, <<"deprecated", B(TRUE)>>, <<"security", A(<<EmptyO>>)>> >>),
                                      << <<"responses", OO(<< <<"default", RespD>> >>)>> >>)),
                                G("same_name_other_in", OpWith(<<Min("parameter"),
@@ -230,8 +250,10 @@ Bads0(kind) ==
                   : m \in Methods \ {"get"}}
           \cup {Bd("template_mismatch", "undeclared_" \o m, OO(<< <<Join(cPathId), OO(<< <<m, Op>> >>)>> >>))
                   : m \in Methods \ {"get"}}
-     [] kind = "pathItem" -> {Bd("dup_param", "twice", OO(<< <<"parameters", A(<<Min("parameter"), Min("parameter")>>)>> >>))}
+     [] kind = "pathItem" -> {BdC("dup_param", x.var, OO(<< <<"parameters", A(x.ps)>> >>), x.comps) : x \in DupLists} \cup
+                             {Bd("dup_param", "twice", OO(<< <<"parameters", A(<<Min("parameter"), Min("parameter")>>)>> >>))}
      [] kind = "operation" ->
+          {BdC("dup_param", x.var, OpWith(x.ps), x.comps) : x \in DupLists} \cup
           {Bd("dup_param", "twice", OpWith(<<Min("parameter"), Sibling("parameter"), Min("parameter")>>)),
            Bd("responses_missing", "absent", OO(<< <<"summary", S("s")>> >>)),
            Bd("responses_empty", "empty", OO(<< <<"responses", EmptyO>> >>))}
@@ -397,10 +419,19 @@ LeafObj(kind, leaf) ==
    IF leaf.rule \in RefRules THEN RefLeafObj(kind, leaf.rule)
    ELSE (CHOOSE x \in LeafTab[kind] : x.rule = leaf.rule /\ x.var = leaf.var).obj
 
-(* the document of a case; a reference leaf brings its target component along *)
+LeafComps(kind, leaf) ==
+   IF leaf.rule \in RefRules THEN <<>>
+   ELSE (CHOOSE x \in LeafTab[kind] : x.rule = leaf.rule /\ x.var = leaf.var).comps
+RECURSIVE AddComps(_, _)
+AddComps(d, comps) ==
+   IF comps = <<>> THEN d
+   ELSE AddComps(SetIn(d, <<"components", Head(comps)[1], Head(comps)[2]>>, Head(comps)[3]), Tail(comps))
+
+(* the document of a case; a reference leaf brings its target component along, and so does a leaf that *)
+(* refers to components itself                                                                         *)
 Doc(path, leaf) ==
    LET kind == KindAt(path)
-       d == Wrap(path, LeafObj(kind, leaf)) IN
+       d == AddComps(Wrap(path, LeafObj(kind, leaf)), LeafComps(kind, leaf)) IN
    IF leaf.rule \in RefRules \ {"dangling_ref"}
    THEN SetIn(d, <<"components", SectionOf(kind), RefName>>, Min(kind))
    ELSE d
